@@ -1938,3 +1938,100 @@ pub fn build_startup_stress(raw: u64) -> AppSpec {
     }
     AppSpec { peel: false, types, n_errs: 1, comps, bp, note: "abiding (start-up stress)".into() }
 }
+
+// ------------------------------------------------------------------------------------------
+// Ordering stress (C10, C01): several independent values, each borrowed by one constructor and
+// taken by value by another one; a handler (and a middleware) take the outputs in a generated order.
+// The compiler has to choose an evaluation order (borrowers first) for several independent pairs
+// at once: whatever it chooses, the choice must not vary from run to run.
+// ------------------------------------------------------------------------------------------
+
+pub fn build_order_stress(raw: u64) -> AppSpec {
+    let mut s = raw | 1;
+    let mut next = move || {
+        s ^= s << 13;
+        s ^= s >> 7;
+        s ^= s << 17;
+        (s >> 9) as usize
+    };
+    let mk = |life: Life, inputs: Vec<(usize, Mode)>, cin: bool| TypeSpec {
+        life,
+        is_clone: cin,
+        is_copy: false,
+        clone_if_necessary: if cin { Some(true) } else { None },
+        inputs,
+        fallible: None,
+        is_async: false,
+        variants: 1,
+        send_sync: true,
+        prebuilt: false,
+        attr_life: None,
+        attr_clone: None,
+        allow_unused: false,
+        v1_flip: false,
+        view_of: None,
+        specific_eh: None,
+    };
+    let n_pairs = 2 + next() % 4;
+    let mut types = vec![];
+    let mut outputs: Vec<(usize, Mode)> = vec![];
+    for _ in 0..n_pairs {
+        let x = types.len();
+        // the contended value: clone-if-necessary most of the time (then any order is acceptable),
+        // sometimes never-clone (then only "borrowers first" can work)
+        types.push(mk(Life::Request, vec![], next() % 4 != 0));
+        let mut b = mk(Life::Request, vec![(x, Mode::Ref)], false);
+        b.is_async = next() % 3 == 0;
+        types.push(b);
+        let mut c = mk(Life::Request, vec![(x, Mode::Move)], false);
+        c.is_async = next() % 3 == 0;
+        types.push(c);
+        let (bm, cm) = (if next() % 2 == 0 { Mode::Ref } else { Mode::Move }, if next() % 2 == 0 { Mode::Ref } else { Mode::Move });
+        if next() % 3 == 0 {
+            outputs.push((x + 2, cm));
+            outputs.push((x + 1, bm));
+        } else {
+            outputs.push((x + 1, bm));
+            outputs.push((x + 2, cm));
+        }
+    }
+    // interleave the pairs
+    for i in (1..outputs.len()).rev() {
+        if next() % 3 == 0 {
+            outputs.swap(i, next() % (i + 1));
+        }
+    }
+    let n = types.len();
+    let mut comps = vec![];
+    let mut bp: Vec<Reg> = (0..n).map(|t| Reg::Ctor { ty: t, variant: 0 }).collect();
+    if next() % 2 == 0 {
+        // a pre-processing middleware borrowing a few of the outputs
+        let inputs: Vec<(usize, Mode)> = outputs.iter().filter(|_| next() % 3 == 0).map(|(t, _)| (*t, Mode::Ref)).collect();
+        bp.push(Reg::Comp { idx: comps.len() });
+        comps.push(CompSpec { kind: CompKind::Pre, inputs, fallible: None, is_async: false, route: None, fw: vec![], gens: vec![] });
+    }
+    bp.push(Reg::Comp { idx: comps.len() });
+    comps.push(CompSpec {
+        kind: CompKind::Handler,
+        inputs: outputs.clone(),
+        fallible: None,
+        is_async: next() % 2 == 0,
+        route: Some(RouteSpec { methods: vec!["GET".into()], path: "/h0".into(), path_param_fields: vec![], bulk: false }),
+        fw: vec![],
+        gens: vec![],
+    });
+    if next() % 2 == 0 {
+        outputs.reverse();
+        bp.push(Reg::Comp { idx: comps.len() });
+        comps.push(CompSpec {
+            kind: CompKind::Handler,
+            inputs: outputs.into_iter().map(|(t, _)| (t, Mode::Ref)).collect(),
+            fallible: None,
+            is_async: false,
+            route: Some(RouteSpec { methods: vec!["POST".into()], path: "/h1".into(), path_param_fields: vec![], bulk: false }),
+            fw: vec![],
+            gens: vec![],
+        });
+    }
+    AppSpec { peel: false, types, n_errs: 0, comps, bp, note: "ordering stress".into() }
+}
